@@ -56,7 +56,7 @@ func runC11(c *report.Ctx) {
 		c.Unresolved("ANCHOR", gateT+".cond", "gateImpl has no *sync.Cond field")
 		return
 	}
-	isState := func(name string) bool { return in(name, stateFields...) }
+	isState := func(name string) bool { return oneOf(name, stateFields...) }
 
 	// the Gate interface: every method must be implemented directly on *gateImpl
 	gateIface := c.P.Named("L/core", "Gate")
